@@ -194,6 +194,15 @@ fn c14_base_field_ops() {
             let fa = F::from_noncanonical_u64(a);
             if m(fa.add_one().0 as u128) != m(a as u128 + 1) { bad.push(format!("add_one: F({a:#x}) + 1 = {:#x}", fa.add_one().0)); }
             if m(fa.sub_one().0 as u128 + 1) != m(a as u128) { bad.push(format!("sub_one: F({a:#x}) - 1 = {:#x}", fa.sub_one().0)); }
+            // the derived unary operations, on every representation (a specialised routine must accept what the generic one accepts)
+            for (what, k) in [("double", 0usize), ("triple", 1), ("square", 2), ("cube", 3)] {
+                cases += 1;
+                let want = match k { 0 => m(2 * m(a as u128)), 1 => m(3 * m(a as u128)), 2 => mulm(a as u128, a as u128), _ => mulm(mulm(a as u128, a as u128), a as u128) };
+                match std::panic::catch_unwind(std::panic::AssertUnwindSafe(|| match k { 0 => fa.double(), 1 => fa.triple(), 2 => fa.square(), _ => fa.cube() })) {
+                    Ok(r) => if m(r.0 as u128) != want { bad.push(format!("{what}: F({a:#x}).{what}() = {:#x}", r.0)); },
+                    Err(_) => bad.push(format!("{what}: F({a:#x}).{what}() PANICKED")),
+                }
+            }
         }
     }
     finish("c14_base_field_ops", cases, bad);
@@ -214,6 +223,11 @@ fn ext_battery<const D: usize, E: OEF<D, BaseField = F> + Frobenius<D> + FieldEx
         let sum: Vec<u128> = (0..D).map(|i| m(ac[i].0 as u128 + bc[i].0 as u128)).collect();
         if canon(&(a + b)) != sum { bad.push(format!("{tag}: add wrong for a={:?} b={:?}", ac.map(|x| x.0), bc.map(|x| x.0))); }
         if canon(&((a - b) + b)) != canon(&a) { bad.push(format!("{tag}: (a-b)+b != a for a={:?} b={:?}", ac.map(|x| x.0), bc.map(|x| x.0))); }
+        *cases += 1;
+        match std::panic::catch_unwind(std::panic::AssertUnwindSafe(|| (a.double(), a.triple(), a.square(), a.cube()))) {
+            Ok((d2, t3, sq, cu)) => if canon(&d2) != canon(&(a + a)) || canon(&t3) != canon(&(a + a + a)) || canon(&sq) != canon(&(a * a)) || canon(&cu) != canon(&(a * a * a)) { bad.push(format!("{tag}: double / triple / square / cube disagree with + and * for a={:?}", ac.map(|x| x.0))); },
+            Err(_) => bad.push(format!("{tag}: double / triple / square / cube PANICKED for a={:?}", ac.map(|x| x.0))),
+        }
         if a != E::ZERO { let i = a.inverse(); if canon(&(a * i)) != canon(&E::ONE) { bad.push(format!("{tag}: a * a^-1 != 1 for a={:?}", ac.map(|x| x.0))); } }
         if s < 24 {
             // Frobenius: repeated_frobenius(k)(x) == x^(p^k), for counts below, at and above D
@@ -225,6 +239,14 @@ fn ext_battery<const D: usize, E: OEF<D, BaseField = F> + Frobenius<D> + FieldEx
             let xs: Vec<E> = (0..9).map(|t| E::from_basefield_array(pick(s + t))).filter(|x| *x != E::ZERO).collect();
             let inv = E::batch_multiplicative_inverse(&xs);
             if xs.iter().zip(&inv).any(|(x, i)| canon(&(*x * *i)) != canon(&E::ONE)) { bad.push(format!("{tag}: batch inverse wrong at seed {s}")); }
+        }
+    }
+    // inverse_2exp(e) is the inverse of 2^e for every e, also beyond the two-adicity of the characteristic and of the extension
+    for e in [0usize, 1, 2, 31, 32, 33, 34, 35, 36, 63, 64, 65, 96, 97, 128, 200] {
+        *cases += 1;
+        match std::panic::catch_unwind(std::panic::AssertUnwindSafe(|| E::inverse_2exp(e))) {
+            Ok(r) => if canon(&(r * E::TWO.exp_u64(e as u64))) != canon(&E::ONE) { bad.push(format!("{tag}: inverse_2exp({e}) is not the inverse of 2^{e}")); },
+            Err(_) => bad.push(format!("{tag}: inverse_2exp({e}) PANICKED")),
         }
     }
     *cases += 2;
